@@ -29,12 +29,14 @@ Definition heights_okb (h : hist) (oh : list nat) : bool :=
 
 Definition key_eqb (k1 k2 : nat * nat) : bool := (fst k1 =? fst k2) && (snd k1 =? snd k2).
 
-Definition closure_okb (h : hist) (oh : list nat) (c : nat) (cl : list (nat * nat)) : bool :=
-  let ancs := ancestors h c in
+Definition closure_okb (ancs : list nat) (oh : list nat) (cl : list (nat * nat)) : bool :=
   (length cl =? length ancs)
   && forallb (fun a => existsb (key_eqb (obs_height oh a, a)) cl) ancs
   && forallb (fun k => memb (snd k) ancs && (fst k =? obs_height oh (snd k))) cl.
 
-Definition closures_okb (h : hist) (oh : list nat) (cls : list (list (nat * nat))) : bool :=
-  (length cls =? length h) &&
-  forallb (fun c => closure_okb h oh c (nth c cls [])) (seq 0 (length h)).
+(* sel = the commits whose stored closure was read (all of them for small graphs);
+   the brute-force ancestor table is computed once *)
+Definition closures_okb (h : hist) (oh : list nat) (sel : list nat) (cls : list (list (nat * nat))) : bool :=
+  let tbl := anc_table h in
+  (length cls =? length sel) &&
+  forallb (fun sc => closure_okb (nth (fst sc) tbl []) oh (snd sc)) (combine sel cls).
